@@ -173,8 +173,9 @@ class PosBase(np.ndarray):
 
     @property
     def is_transposed(self):
-        # Because we forced order == "C" on creation
-        return self.flags.f_contiguous
+        # Because we forced order == "C" on creation. A 2-dimensional array with a single row is both C- and
+        # F-contiguous, it is not transposed
+        return self.flags.f_contiguous and (self.ndim < 2 or not self.flags.c_contiguous)
 
     @property
     def unit_vector(self):
